@@ -290,7 +290,7 @@ Section Fixed.
     forall k e, clookup k c = Some (Some e) ->
       ce_exe e = fst k /\
       exists ev b, last_same k rpast = Some ev /\ e_cur ev = Some (b, ce_mtime e) /\
-                   detect b = Some (ce_id e).
+                   (detect b = Some (ce_id e) \/ detect b = None).
 
   Definition results_ok (r : list (N * N)) : Prop :=
     CF -> forall k prod, rlookup k r = Some prod ->
@@ -317,7 +317,9 @@ Section Fixed.
     (e_exe e = None \/ e_exe e = Some (e_path e)) /\
     (* a working compiler at the path is always served, keyed on its own identity *)
     (forall b m id, e_cur e = Some (b, m) -> detect b = Some id ->
-                    served e <> None /\ e_key e = Some (H id (e_src e))).
+                    served e <> None /\ e_key e = Some (H id (e_src e))) /\
+    (* and a file that is no compiler never is *)
+    (forall b m, e_cur e = Some (b, m) -> detect b = None -> served e = None).
 
   Lemma resolve_inB n f p t b m : fs_ok f -> resolve n f p = Some (t, (b, m)) -> inB b.
   Proof. intros F R. apply resolve_file in R. eapply F; eassumption. Qed.
@@ -369,7 +371,8 @@ Section Fixed.
     comps_ok rpast c ->
     (forall k1, e_ckey ev <> Some k1 -> clookup k1 c' = clookup k1 c) ->
     (forall k e, e_ckey ev = Some k -> clookup k c' = Some (Some e) ->
-       ce_exe e = fst k /\ exists b, e_cur ev = Some (b, ce_mtime e) /\ detect b = Some (ce_id e)) ->
+       ce_exe e = fst k /\ exists b, e_cur ev = Some (b, ce_mtime e) /\
+                                 (detect b = Some (ce_id e) \/ detect b = None)) ->
     comps_ok (ev :: rpast) c'.
   Proof.
     intros C Other Own k1 e1 L1.
@@ -399,7 +402,7 @@ Section Fixed.
         \/ (c' = cset k None c /\ i = IErr /\ (fsv = f \/ fsv = env_run f env) /\
             forall b' m', stat fsv p = Some (b', m') -> detect b' = None)
         \/ (exists id b2 m2, i = IOk p id true /\ fsv = env_run f env /\
-              stat fsv p = Some (b2, m2) /\ detect b2 = Some id /\
+              stat fsv p = Some (b2, m2) /\ (detect b2 = Some id \/ detect b2 = None) /\
               (c' = cset k None c \/
                (m2 = m /\ c' = cset k (Some {| ce_exe := p; ce_id := id; ce_mtime := m |}) c)))
     end.
@@ -417,22 +420,20 @@ Section Fixed.
            match stat f2 p with
            | None => (cset k None c, f2, IErr)
            | Some (b2, _) =>
-               match detect b2 with
-               | None => (cset k None c, f2, IErr)
-               | Some id =>
-                   (match (match stat f2 p with Some (_, x) => Some x | None => None end) with
-                    | Some x => if x =? m
-                                then cset k (Some {| ce_exe := p; ce_id := id; ce_mtime := m |}) c
-                                else cset k None c
-                    | None => cset k None c
-                    end, f2, IOk p id true)
-               end
+               (match (match stat f2 p with Some (_, x) => Some x | None => None end) with
+                | Some x => if x =? m
+                            then cset k (Some {| ce_exe := p;
+                                                 ce_id := match detect b2 with Some i0 => i0 | None => 0 end;
+                                                 ce_mtime := m |}) c
+                            else cset k None c
+                | None => cset k None c
+                end, f2, IOk p (match detect b2 with Some i0 => i0 | None => 0 end) true)
            end
        end) = (c', fsv, i) ->
       (c' = cset k None c /\ i = IErr /\ (fsv = f \/ fsv = f2) /\
        forall b' m', stat fsv p = Some (b', m') -> detect b' = None)
       \/ (exists id b2 m2, i = IOk p id true /\ fsv = f2 /\
-            stat fsv p = Some (b2, m2) /\ detect b2 = Some id /\
+            stat fsv p = Some (b2, m2) /\ (detect b2 = Some id \/ detect b2 = None) /\
             (c' = cset k None c \/
              (m2 = m /\ c' = cset k (Some {| ce_exe := p; ce_id := id; ce_mtime := m |}) c)))).
     { destruct (detect b) as [idb|] eqn:Db.
@@ -441,11 +442,11 @@ Section Fixed.
       destruct (stat f2 p) as [[b2 m2]|] eqn:S2.
       2:{ intros E; inversion E; subst. left. split; [reflexivity|]. split; [reflexivity|].
           split; [right; reflexivity|]. intros b' m' St. rewrite S2 in St. discriminate. }
-      destruct (detect b2) as [id|] eqn:D2.
-      2:{ intros E; inversion E; subst. left. split; [reflexivity|]. split; [reflexivity|].
-          split; [right; reflexivity|]. intros b' m' St. rewrite S2 in St. inversion St; subst. exact D2. }
-      destruct (m2 =? m) eqn:M; intros E; inversion E; subst; right; exists id, b2, m2;
-        (split; [reflexivity|]); (split; [reflexivity|]); (split; [exact S2|]); (split; [exact D2|]).
+      set (id := match detect b2 with Some i0 => i0 | None => 0 end).
+      assert (Did : detect b2 = Some id \/ detect b2 = None).
+      { unfold id. destruct (detect b2); [left; reflexivity | right; reflexivity]. }
+      destruct (m2 =? m) eqn:M; intros E; inversion E; subst c' fsv i; right; exists id, b2, m2;
+        (split; [reflexivity|]); (split; [reflexivity|]); (split; [exact S2|]); (split; [exact Did|]).
       - right. apply N.eqb_eq in M. auto.
       - left. reflexivity. }
     destruct (clookup k c) as [[e|]|] eqn:L.
@@ -484,9 +485,10 @@ Section Fixed.
       { intros cf. specialize (Pr cf). destruct out; auto; subst; apply N.eqb_refl. }
       split. { intros k1 E1; inversion E1; subst. exists id; auto. }
       split. { intros b1 m1 E1; inversion E1; subst; assumption. }
-      split; [assumption|]. split; [right; reflexivity|].
-      intros b1 m1 id1 E1 D1. inversion E1; subst b1 m1. rewrite D in D1; inversion D1; subst id1.
-      split; [|reflexivity]. destruct Sv as [q [-> | ->]]; discriminate. }
+      split; [assumption|]. split; [right; reflexivity|]. split.
+      { intros b1 m1 id1 E1 D1. inversion E1; subst b1 m1. rewrite D in D1; inversion D1; subst id1.
+        split; [|reflexivity]. destruct Sv as [q [-> | ->]]; discriminate. }
+      intros b1 m1 E1 D1. inversion E1; subst b1 m1. rewrite D in D1; discriminate. }
     destruct (rlookup (H id src) rs) as [prod|] eqn:L.
     - intros E; inversion E; subst s' ev; clear E. simpl. split; [|exact R].
       apply Common; [exists prod; left; reflexivity|]. intros cf.
@@ -496,6 +498,24 @@ Section Fixed.
     - intros E; inversion E; subst s' ev; clear E. simpl. split.
       + apply Common; [exists b; right; reflexivity|]. intros _; reflexivity.
       + eapply results_ok_add; eauto.
+  Qed.
+
+  (* what is at the path is no compiler: the preprocessor run fails, nothing is looked up or stored *)
+  Lemma serve_fail rs c' f' fsv p src cur0 ck id det b mm s' ev :
+    fs_ok fsv -> inS src ->
+    stat fsv p = Some (b, mm) -> detect b = None ->
+    serve detect H rs c' f' fsv p src cur0 ck p id det = (s', ev) ->
+    good ev /\ results s' = rs.
+  Proof.
+    intros F S St D. unfold serve. rewrite St, D.
+    intros E; inversion E; subst s' ev; clear E. simpl. split; [|reflexivity].
+    unfold good, identity_current, producer_current, served, mk_event; simpl. rewrite D.
+    split; [reflexivity|]. split; [reflexivity|].
+    split. { intros k1 E1; inversion E1; subst. exists id; auto. }
+    split. { intros b1 m1 E1; inversion E1; subst. eapply stat_inB; eassumption. }
+    split; [assumption|]. split; [right; reflexivity|]. split.
+    - intros b1 m1 id1 E1 D1. inversion E1; subst b1 m1. rewrite D in D1; discriminate.
+    - reflexivity.
   Qed.
 
   Lemma compile_step rpast s p src env s' ev :
@@ -514,7 +534,8 @@ Section Fixed.
     2:{ destruct CI as [-> [-> ->]]. intros E; inversion E; subst s' ev; clear E. split.
         - unfold good, identity_current, producer_current, served, mk_event; simpl.
           split; [reflexivity|]. split; [reflexivity|]. split; [discriminate|].
-          split; [discriminate|]. split; [assumption|]. split; [left; reflexivity|]. discriminate.
+          split; [discriminate|]. split; [assumption|]. split; [left; reflexivity|].
+          split; [discriminate | reflexivity].
         - split; [exact F'|]. split; [|exact R]. simpl.
           eapply comps_ok_step; [exact C | reflexivity |].
           intros k1 e1 K1. unfold mk_event in K1; simpl in K1. unfold req_key in K1. rewrite Rs in K1. discriminate. }
@@ -530,8 +551,12 @@ Section Fixed.
       { apply (agree_same_bytes ev0 ev b0 b m);
           [eapply link_ok_use; eassumption | rewrite <- M; exact C0 | exact Sc0]. }
       subst b0. rewrite Ex. intros E.
-      destruct (serve_good _ _ _ _ _ _ _ _ _ _ _ _ _ _ F R S Stp D0 E) as [G R'].
       destruct (serve_shape _ _ _ _ _ _ _ _ _ _ _ _ _ _ _ E) as [_ [_ [_ [_ [Cu [_ [_ [_ [Fs Cs]]]]]]]]].
+      assert (G : good ev /\ results_ok (results s')).
+      { destruct D0 as [D0 | D0].
+        - exact (serve_good _ _ _ _ _ _ _ _ _ _ _ _ _ _ F R S Stp D0 E).
+        - destruct (serve_fail _ _ _ _ _ _ _ _ _ _ _ _ _ _ F S Stp D0 E) as [G ->]. auto. }
+      destruct G as [G R'].
       split; [exact G|]. split; [rewrite Fs; exact F'|]. split; [|exact R']. rewrite Cs.
       eapply comps_ok_step; [exact C | reflexivity |].
       intros k1 e1 K1 L1. rewrite Sk in K1; inversion K1; subst k1. rewrite L in L1; inversion L1; subst e1.
@@ -542,8 +567,9 @@ Section Fixed.
       + unfold good, identity_current, producer_current, served, mk_event; simpl.
         split; [reflexivity|]. split; [reflexivity|]. split; [discriminate|].
         split; [intros b1 m1 E1; eapply stat_inB; eassumption|].
-        split; [assumption|]. split; [left; reflexivity|].
-        intros b1 m1 id1 E1 D1. rewrite (Nd _ _ E1) in D1. discriminate.
+        split; [assumption|]. split; [left; reflexivity|]. split.
+        * intros b1 m1 id1 E1 D1. rewrite (Nd _ _ E1) in D1. discriminate.
+        * reflexivity.
       + split; [exact F'|]. split; [|exact R]. cbn [comps].
         eapply comps_ok_step; [exact C | |].
         * unfold mk_event; cbn [e_ckey e_cur]. rewrite Rk. intros k1 NE. rewrite clookup_cset.
@@ -553,8 +579,12 @@ Section Fixed.
           rewrite clookup_cset, ckey_eqb_refl in L1. discriminate.
     - (* detected afresh, in the file system the window left behind *)
       intros E.
-      destruct (serve_good _ _ _ _ _ _ _ _ _ _ _ _ _ _ F' R S S2 D2 E) as [G R'].
       destruct (serve_shape _ _ _ _ _ _ _ _ _ _ _ _ _ _ _ E) as [_ [_ [_ [_ [Cu [_ [_ [_ [Fs Cs]]]]]]]]].
+      assert (G : good ev /\ results_ok (results s')).
+      { destruct D2 as [D2 | D2].
+        - exact (serve_good _ _ _ _ _ _ _ _ _ _ _ _ _ _ F' R S S2 D2 E).
+        - destruct (serve_fail _ _ _ _ _ _ _ _ _ _ _ _ _ _ F' S S2 D2 E) as [G ->]. auto. }
+      destruct G as [G R'].
       split; [exact G|]. split; [rewrite Fs; exact F'|]. split; [|exact R']. rewrite Cs.
       eapply comps_ok_step; [exact C | |].
       + intros k1 NE. rewrite Sk in NE.
@@ -691,14 +721,20 @@ Section Closed.
     In e (exec detect H VFixed (start f0) ops) -> identity_current detect e = true.
   Proof. intros I. apply (event_good e I). Qed.
 
+  Lemma not_served_without_compiler e :
+    In e (exec detect H VFixed (start f0) ops) ->
+    forall b m, e_cur e = Some (b, m) -> detect b = None -> served e = None.
+  Proof. intros I. apply (event_good e I). Qed.
+
   Lemma identity_spelled e id :
-    In e (exec detect H VFixed (start f0) ops) -> e_id e = Some id ->
+    In e (exec detect H VFixed (start f0) ops) -> e_id e = Some id -> served e <> None ->
     exists b m, e_cur e = Some (b, m) /\ detect b = Some id.
   Proof.
-    intros I E. pose proof (identity_is_current e I) as C. unfold identity_current in C.
-    rewrite E in C. destruct (e_cur e) as [[b m]|]; [|discriminate].
-    destruct (detect b) as [id'|] eqn:D; [|discriminate].
-    apply N.eqb_eq in C; subst id'. exists b, m; auto.
+    intros I E Sv. pose proof (identity_is_current e I) as C. unfold identity_current in C.
+    rewrite E in C. destruct (e_cur e) as [[b m]|] eqn:Cu; [|discriminate].
+    destruct (detect b) as [id'|] eqn:D.
+    - apply N.eqb_eq in C; subst id'. exists b, m; auto.
+    - contradiction Sv. eapply not_served_without_compiler; eassumption.
   Qed.
 
   Lemma served_working e :
@@ -707,17 +743,20 @@ Section Closed.
     served e <> None /\ e_key e = Some (H id (e_src e)).
   Proof. intros I. apply (event_good e I). Qed.
 
-  (* C12_identity_is_current, all three readings *)
+  (* C12_identity_is_current, all readings *)
   Lemma identity_full e :
     In e (exec detect H VFixed (start f0) ops) ->
     identity_current detect e = true /\
-    (forall id, e_id e = Some id -> exists b m, e_cur e = Some (b, m) /\ detect b = Some id) /\
+    (forall id, e_id e = Some id -> served e <> None ->
+                exists b m, e_cur e = Some (b, m) /\ detect b = Some id) /\
     (forall b m id, e_cur e = Some (b, m) -> detect b = Some id ->
-                    served e <> None /\ e_key e = Some (H id (e_src e))).
+                    served e <> None /\ e_key e = Some (H id (e_src e))) /\
+    (forall b m, e_cur e = Some (b, m) -> detect b = None -> served e = None).
   Proof.
-    intros I. split; [exact (identity_is_current e I)|]. split.
+    intros I. split; [exact (identity_is_current e I)|]. split; [|split].
     - intros id. exact (identity_spelled e id I).
     - exact (served_working e I).
+    - exact (not_served_without_compiler e I).
   Qed.
 
   (* C12_no_cross_binary_results *)
@@ -732,20 +771,20 @@ Section Closed.
   Qed.
 
   (* C12_distinct_binaries_never_share *)
-  Lemma distinct_never_share e1 e2 b1 m1 b2 m2 k1 k2 :
+  Lemma distinct_never_share e1 e2 b1 m1 b2 m2 i1 i2 :
     CFb ->
     In e1 (exec detect H VFixed (start f0) ops) -> In e2 (exec detect H VFixed (start f0) ops) ->
-    e_cur e1 = Some (b1, m1) -> e_cur e2 = Some (b2, m2) -> b1 <> b2 ->
-    e_key e1 = Some k1 -> e_key e2 = Some k2 -> k1 <> k2.
+    e_cur e1 = Some (b1, m1) -> e_cur e2 = Some (b2, m2) ->
+    detect b1 = Some i1 -> detect b2 = Some i2 -> b1 <> b2 ->
+    exists k1 k2, e_key e1 = Some k1 /\ e_key e2 = Some k2 /\ k1 <> k2.
   Proof.
-    intros cf I1 I2 C1 C2 NE K1 K2 EK.
-    destruct (event_good e1 I1) as [_ [_ [Ky1 [B1 [S1 _]]]]].
-    destruct (event_good e2 I2) as [_ [_ [Ky2 [B2 [S2 _]]]]].
-    destruct (Ky1 _ K1) as [i1 [Ei1 ->]]. destruct (Ky2 _ K2) as [i2 [Ei2 ->]].
-    destruct (identity_spelled e1 i1 I1 Ei1) as [b1' [m1' [C1' D1]]].
-    destruct (identity_spelled e2 i2 I2 Ei2) as [b2' [m2' [C2' D2]]].
-    rewrite C1 in C1'; inversion C1'; subst b1' m1'.
-    rewrite C2 in C2'; inversion C2'; subst b2' m2'.
+    intros cf I1 I2 C1 C2 D1 D2 NE.
+    destruct (event_good e1 I1) as [_ [_ [_ [B1 [S1 _]]]]].
+    destruct (event_good e2 I2) as [_ [_ [_ [B2 [S2 _]]]]].
+    destruct (served_working e1 I1 b1 m1 i1 C1 D1) as [_ K1].
+    destruct (served_working e2 I2 b2 m2 i2 C2 D2) as [_ K2].
+    exists (H i1 (e_src e1)), (H i2 (e_src e2)). split; [exact K1|]. split; [exact K2|].
+    intros EK.
     destruct (cf_H cf b1 b2 i1 i2 (e_src e1) (e_src e2) (B1 _ _ C1) (B2 _ _ C2) S1 S2 D1 D2 EK) as [-> _].
     apply NE. eapply (cf_detect cf); eauto.
   Qed.
